@@ -11,7 +11,7 @@ fn two(b: &[u8], i: usize) -> u32 {
     ((b[i] - b'0') * 10 + (b[i + 1] - b'0')) as u32
 }
 
-// @ob tier=thorough timeout=7200 mem=24
+// @ob tier=extra timeout=7200 mem=24
 // @desc RFC 3339 rendering (the real write_rfc3339, reached through the public `Fixed::RFC3339` item into a fixed buffer): for every date-time with wall-clock year 0..=9999 and every whole-minute offset the text is `YYYY-MM-DDTHH:MM:SS[.fff[fff[fff]]]+HH:MM`; every position is in the grammar's character class, the fields are the wall-clock fields (second 60 for a leap second), the fraction is the shortest of 0/3/6/9 digits that loses nothing (truncated never rounded), sign/hours/minutes of the offset are exact
 // @bounds wall-clock years 0..=9999, all times incl. leap fraction on second 59, whole-minute offsets in (-24h, 24h); output <= 35 bytes (unwind 12 for the fraction digits)
 // @funcs write_rfc3339 (via Fixed::RFC3339 item), OffsetFormat::format, write_hundreds, DelayedFormat::format_fixed
